@@ -38,12 +38,14 @@ def main():
     if "--checks" in sys.argv:
         extra = sys.argv[sys.argv.index("--checks") + 1].split(",")
     run_tests = "--no-tests" not in sys.argv
-    out = Path(f"/tmp/seed/{prop}_out")
+    base = sys.argv[sys.argv.index("--dir") + 1] if "--dir" in sys.argv else "/tmp/seed"
+    tag = sys.argv[sys.argv.index("--tag") + 1] if "--tag" in sys.argv else ""
+    out = Path(f"{base}/{prop}_out")
     for diff in sorted(out.glob("mut*.diff")):
         k = diff.stem[3:]
         demo = out / f"mut{k}_demo.py"
         notes = out / f"mut{k}.md"
-        res = {"property": prop, "mutant": f"{prop}-m{k}", "repo_head": sh(["git", "-C", "/repo", "rev-parse", "--short", "HEAD"]).stdout.strip()}
+        res = {"property": prop, "mutant": f"{prop}-{tag}m{k}", "repo_head": sh(["git", "-C", "/repo", "rev-parse", "--short", "HEAD"]).stdout.strip()}
         clean, mutated = copy_repo(), copy_repo()
         try:
             ap = sh(["git", "apply", "--whitespace=nowarn", str(diff)], cwd=mutated)
@@ -51,7 +53,7 @@ def main():
                 ap = sh(["patch", "-p1", "-s", "-i", str(diff)], cwd=mutated)
             res["applies"] = ap.returncode == 0
             if not res["applies"]:
-                print(f"{prop}-m{k}: patch does not apply: {ap.stderr[:200]}")
+                print(f"{prop}-{tag}m{k}: patch does not apply: {ap.stderr[:200]}")
                 continue
             d_clean = sh(["/venv/bin/python", str(demo)], env={"PYTHONPATH": str(clean)}, timeout=900)
             d_mut = sh(["/venv/bin/python", str(demo)], env={"PYTHONPATH": str(mutated)}, timeout=900)
@@ -76,10 +78,10 @@ def main():
             shutil.rmtree(ev, ignore_errors=True)
             caught = [c for c, v in res["checks"].items() if v["exit"] == 1]
             res["caught_by"] = caught
-            print(f"{prop}-m{k}: demo_confirms={res['demo_confirms']} tests={res.get('fast_tests_pass')} caught_by={caught} "
+            print(f"{prop}-{tag}m{k}: demo_confirms={res['demo_confirms']} tests={res.get('fast_tests_pass')} caught_by={caught} "
                   f":: {res['checks'][prop]['first'][:160]}")
             if res["demo_confirms"]:
-                dest = VERIF / "seeded" / f"{prop}-m{k}"
+                dest = VERIF / "seeded" / f"{prop}-{tag}m{k}"
                 dest.mkdir(parents=True, exist_ok=True)
                 shutil.copy(diff, dest / "patch.diff")
                 shutil.copy(demo, dest / "demo.py")
